@@ -4,7 +4,7 @@ LEVEL = 'exploration'
 RULE = ('sequential: random sequence lengths 1-12 on the default and 0-4 conditions of one stub (Func, Struct.Method, Interface.Method, two-result func; Return+AndReturn and Returns forms), '
         'random interleaving of calls selecting different stubs, each checked against an exact per-stub cursor; concurrent (race build): 2-32 goroutines released by a spin barrier call '
         'one stub whose elements are unique per position, every operation recorded {client, call stamp, value, return stamp} from one atomic clock and checked offline by porcupine '
-        'against the monotone-cursor specification (partitioned by stub) and by a direct real-time-order check; the same histories again with debug logging on; race reports counted from GORACE log; '
+        'against the monotone-cursor specification (partitioned by stub) and by a direct real-time-order check; the same histories again with debug logging on; sequences of thousands of distinct elements hammered by up to 16 goroutines until all have seen the last one, checked by the direct real-time-order rule; race reports counted from GORACE log; '
         'distinct = (mode, API form, goroutine bucket, number of stubs, max length) classes')
 
 
@@ -25,6 +25,11 @@ def run(ctx):
     # the same histories with debug logging on (calls go through goom's logging wrapper), race build
     ctx.children(br, 2 if not ctx.thorough else 8, run='TestC05Concurrent', timeout=2400, parallel=4, what='TestC05Concurrent[debug logging]',
                  env={'VERIF_C05_HIST': str(int(nh) // 2), 'VERIF_C05_PTIMEOUT': pt, 'VERIF_C05_DEBUG': '1', 'GORACE': 'halt_on_error=0 log_path=%s' % racelog})
+    # long sequences hammered until everybody has seen the last element (direct real-time-order check only)
+    ctx.children(b, 2 if not ctx.thorough else 8, run='TestC05Long', timeout=1200, parallel=2, what='TestC05Long',
+                 env={'VERIF_C05_LONG': '6000' if not ctx.thorough else '20000', 'VERIF_C05_LONGROUNDS': '4' if not ctx.thorough else '12'})
+    ctx.children(br, 1 if not ctx.thorough else 4, run='TestC05Long', timeout=2400, parallel=2, what='TestC05Long[race build]',
+                 env={'VERIF_C05_LONG': '3000', 'VERIF_C05_LONGROUNDS': '2' if not ctx.thorough else '8', 'GORACE': 'halt_on_error=0 log_path=%s' % racelog})
     n, sigs = core.count_races(racelog + '.*')
     ctx.stats['race_reports'] = n
     for s in sigs[:5]:
